@@ -89,7 +89,7 @@ class NewtonGirardAdditiveKernel(Kernel):
         # e_n is R x n x n, and the array is properly 0 indexed.
         shape = [d_ for d_ in kern_values.shape]
         shape[kernel_dim] = self.max_degree + 1
-        e_n = torch.empty(*shape, device=kern_values.device)
+        e_n = torch.empty(*shape, device=kern_values.device, dtype=kern_values.dtype)
         if kernel_dim == -3:
             e_n[..., 0, :, :] = 1.0
         else:
@@ -100,14 +100,14 @@ class NewtonGirardAdditiveKernel(Kernel):
         s_k = kern_values.unsqueeze(kernel_dim - 1).pow(kvals).sum(dim=kernel_dim)
 
         # just the constant -1
-        m1 = torch.tensor([-1], dtype=torch.float, device=kern_values.device)
+        m1 = torch.tensor([-1], dtype=kern_values.dtype, device=kern_values.device)
 
         shape = [1 for _ in range(len(kern_values.shape))]
         shape[kernel_dim] = -1
         for deg in range(1, self.max_degree + 1):  # deg goes from 1 to R (it's 1-indexed!)
             # we avg over k [1, ..., deg] (-1)^(k-1)e_{deg-k} s_{k}
 
-            ks = torch.arange(1, deg + 1, device=kern_values.device, dtype=torch.float).reshape(*shape)  # use for pow
+            ks = torch.arange(1, deg + 1, device=kern_values.device, dtype=kern_values.dtype).reshape(*shape)  # use for pow
             kslong = torch.arange(1, deg + 1, device=kern_values.device, dtype=torch.long)  # use for indexing
 
             # note that s_k is 0-indexed, so we must subtract 1 from kslong
